@@ -48,13 +48,22 @@ def vectorize_mode(repo):
         if kw.arg == "otypes" and not (isinstance(kw.value, ast.Constant) and kw.value.value is None):
             mode = "declared"
     # the raw function may be returned only under the skip_vectorization test
+    from staticlib.guards import Dominance
+
+    dom = Dominance(fn)
+
+    def mentions_flag(test):
+        """the test reads skip_vectorization itself or through a module-level predicate that does"""
+        if "skip_vectorization" in ast.unparse(test):
+            return True
+        for c in ast.walk(test):
+            if isinstance(c, ast.Call) and isinstance(c.func, ast.Name) and c.func.id in fl.functions and "skip_vectorization" in ast.unparse(fl.functions[c.func.id]):
+                return True
+        return False
+
     for n in walk_own(fn):
         if isinstance(n, ast.Return) and isinstance(n.value, ast.Name) and n.value.id == param:
-            guarded = False
-            for m in walk_own(fn):
-                if isinstance(m, ast.If) and "skip_vectorization" in ast.unparse(m.test) and n in list(ast.walk(m)):
-                    if n in [x for b in m.body for x in ast.walk(b)]:
-                        guarded = True
+            guarded = any(pol and mentions_flag(t) for t, pol in dom.of(n))
             if not guarded:
                 problems.append(("P0-unwrapped-return", fl.loc(n), "the unvectorised function is returned outside the skip_vectorization test"))
     # every loaded function passes through _vectorize_func
